@@ -1250,6 +1250,7 @@ impl Scenario for C12 {
     }
     fn extra_coverage(tier: Tier) -> serde_json::Value {
         serde_json::json!({
+            "state_abstraction": "(interpolation rule, node count, order after the switch, own-variables flag, user-Hessian flag, order before the switch, history length, constructor)",
             "history_space": match tier { Tier::Quick => "all 39 switch sequences of length 1..3 per curve", Tier::Thorough => "all 120 (depth 4) or 363 (depth 5) switch sequences per curve" },
             "history_dimension_exhaustive_up_to_bound": true
         })
